@@ -272,6 +272,11 @@ func (g *Gen) genC14(n int) error {
 			g.st("case")
 			continue
 		}
+		if i%40 == 7 || i%40 == 23 {
+			g.vecMergedLackingCase()
+			g.st("case")
+			continue
+		}
 		cfg := g.vecCfg()
 		if g.tier == "thorough" && i%100 == 99 || g.tier == "quick" && i%40 == 39 {
 			// clustered index class: at least 1000 vectors
@@ -633,6 +638,28 @@ func (g *Gen) genC16(n int) error {
 			g.emit("vclose %s", h1)
 			g.emit("vclose %s", h2)
 			g.emit("vrefs %s", seg)
+		}
+		if i%4 == 3 {
+			// the engine fails while the first caller's index is loaded (a cache miss), also after an
+			// eviction: that caller gets the error, nothing stays cached or alive, and the next caller
+			// gets a working index with complete answers
+			for _, fn := range []string{"vecA", "vecB"} {
+				h1, h2, h3 := g.fresh("h"), g.fresh("h"), g.fresh("h")
+				g.emit("vopen %s %s %s filt=%s ex=nil engfail=ReadIndexFromBuffer:1", h1, seg, fn, g.pick([]string{"0", "1"}))
+				g.emit("vrefs %s", seg)
+				g.emit("vopen %s %s %s filt=0 ex=%s", h2, seg, fn, g.randDrops(nd))
+				g.emit("vsearch %s q=%s k=%d", h2, g.randQuery(2), nd*3)
+				g.emit("vclose %s", h2)
+				g.emit("vtick %s", seg)
+				g.emit("vtick %s", seg)
+				g.emit("vopen %s %s %s filt=1 ex=nil engfail=ReadIndexFromBuffer:1", h1, seg, fn)
+				g.emit("vopen %s %s %s filt=1 ex=nil", h3, seg, fn)
+				g.emit("vsearch %s q=%s k=%d", h3, g.randQuery(2), nd*3)
+				g.emit("vclose %s", h3)
+				g.emit("vrefs %s", seg)
+			}
+			g.emit("vcounters")
+			g.st("c16.failedload")
 		}
 		if i%4 == 2 {
 			// first opens of an uncached field by several goroutines at once, every other one filtering:
@@ -1227,4 +1254,66 @@ func (g *Gen) oneHitRemergeCase() {
 		g.emit("close %s", s)
 	}
 	g.st("onehit.remerge")
+}
+
+// vecMergedLackingCase: searches on merged segments one of whose inputs - an earlier one, a later
+// one, one in the middle - has no vector of the field at all (or none of any field); the answers
+// are exact (few vectors), so every vector must come back under its own new document number.
+func (g *Gen) vecMergedLackingCase() {
+	g.setMode()
+	mk := func(nd int, withA, withB bool) (string, *BatchSpec) {
+		b := &BatchSpec{Name: g.fresh("b")}
+		for d := 0; d < nd; d++ {
+			id := []byte(fmt.Sprintf("%s-%d", b.Name, d))
+			doc := DocSpec{ID: id, Plain: true}
+			doc.Fields = append(doc.Fields, FieldSpec{Kind: "fld", Name: "_id", Typ: 't', Stored: true, Len: 1, Val: id, Toks: []TokSpec{{Term: id, Freq: 1}}})
+			doc.Fields = append(doc.Fields, FieldSpec{Kind: "fld", Name: "body", Typ: 't', Len: 1, Toks: []TokSpec{{Term: []byte("w"), Freq: 1}}})
+			if withA {
+				doc.Fields = append(doc.Fields, FieldSpec{Kind: "vec", Name: "vecA", Dim: 2, Metric: "l2_norm", Opt: g.vecOpt["vecA"], Vec: []int{g.r.Intn(9) - 4, g.r.Intn(9) - 4}})
+			}
+			if withB && d%2 == 0 {
+				doc.Fields = append(doc.Fields, FieldSpec{Kind: "vec", Name: "vecB", Dim: 2, Metric: g.vecBMetric, Opt: g.vecOpt["vecB"], Vec: []int{g.r.Intn(9) - 4, g.r.Intn(9) - 4}})
+			}
+			b.Docs = append(b.Docs, doc)
+		}
+		g.emitBatch(b)
+		s := g.fresh("s")
+		g.emit("build %s %s", s, b.Name)
+		g.newBuilt(s, b)
+		return s, b
+	}
+	text, _ := mk(6, false, false)
+	onlyB, bB := mk(5, false, true)
+	both, bAB := mk(4, true, true)
+	onlyA, bA := mk(3, true, false)
+	for _, order := range [][]string{{text, both}, {both, text}, {onlyB, both, onlyA}, {onlyA, text, onlyB, both}, {text, onlyB, onlyA}} {
+		drops := make([]string, len(order))
+		for k := range drops {
+			drops[k] = g.pick([]string{"nil", "nil", "0", "1"})
+		}
+		f := g.fresh("f")
+		g.emit("merge %s segs=%s drops=%s", f, strList(order), strings.Join(drops, "|"))
+		m := g.fresh("m")
+		g.emit("open %s %s", m, f)
+		g.emit("vstats %s", m)
+		for _, fn := range []string{"vecA", "vecB"} {
+			h := g.fresh("h")
+			g.emit("vopen %s %s %s filt=0 ex=nil", h, m, fn)
+			for _, bb := range []*BatchSpec{bB, bAB, bA} {
+				for d := 0; d < len(bb.Docs); d++ {
+					if v := vecOfDoc(bb, d, fn); v != nil {
+						g.emit("vsearch %s q=%s k=1", h, intList(v))
+					}
+				}
+			}
+			g.emit("vsearch %s q=%s k=40", h, g.randQuery(2))
+			g.emit("vclose %s", h)
+		}
+		g.emit("close %s", m)
+	}
+	for _, s := range []string{text, onlyB, both, onlyA} {
+		g.emit("close %s", s)
+	}
+	g.emit("vcounters")
+	g.st("vec.mergedlacking")
 }
